@@ -35,9 +35,33 @@ CHECKS = {
    technique="deterministic simulation with a Byzantine adversary sending well-signed absurd messages; panic oracle",
    text="Message-level half of C10: Byzantine validators send well-signed consensus messages with extreme field values (view/block numbers 0,1,2^64-2,2^64-1, empty and oversized signer sets, oversized payloads, empty certificates) into running clusters; any panic in code under test (outside an already crashed incarnation) is a violation: the harness profile unwinds, a production build aborts.",
    note="Decoders as pure functions over all byte strings are not claimed (DESIGN section 6); the byte-stream half is added by the pipe engine."),
+ "C08": dict(engine="primsim", design="DESIGN.md section 5 (C08)",
+   technique="deterministic simulation of the real EngineManager over a simulated disk with lag / jumps / pruning / restarts and concurrent submitters; reference chain + history oracles",
+   text="A genuine certified chain plus invalid variants is submitted concurrently, in and out of order and duplicated, to the real EngineManager while readers call get_block and the simulated persistence layer lags, jumps ahead through a side channel, prunes and is restarted from its durable state. Oracles: only genuine blocks reach the execution layer, in order and without gaps from the durable head; never two blocks for one number; queued/persisted ranges consistent at every step; any number inside queued() reads back the genuine block until pruned; invalid submissions are rejected. The same oracles are active on the manager inside every consensus-cluster run.",
+   note="EngineInterface contract: queue_next_block accepts the block directly after the previously queued one; blocks at or below the durable head are ignored. Peer path (get_block RPC answers) not simulated yet."),
+ "C12": dict(engine="primsim", design="DESIGN.md section 5 (C12)",
+   technique="deterministic simulation of the real connection pool under concurrent inserts/removes; reference set model and per-step invariant",
+   text="Pool half of C12 only: concurrent connections race for the same identities and for the quota of unlisted peers on the real PoolWatch; after every step the pool holds at most one entry per key and at most `quota` keys outside the allowed set, every admission decision equals a reference set model, and the quota neither leaks nor over-admits. The handshake half (authentication, genesis, expected peer) is NOT claimed in this revision.",
+   note="Handshake half needs the simulated TCP seam (hook H2), not built yet."),
+ "C15": dict(engine="primsim", design="DESIGN.md section 5 (C15)",
+   technique="deterministic simulation of the real Limiter with seeded schedules, director-controlled clock, cancellations; token-bucket / FIFO / leak oracles over the grant history",
+   text="Limiter half of C15: 1-6 client tasks acquire / hold / drop / cancel on the real Limiter while the director advances the manual clock; over the grant history: no window of length T sees more than burst + T/refresh + 1 permits, waiters are served in arrival order, cancelled waits consume nothing (no leak: acquire(burst) is immediate after burst*refresh of idleness), nothing above burst is ever granted. The per-RPC-stream half is not claimed yet.",
+   note="Time is the ManualClock; interleavings at await-point granularity."),
+ "C17": dict(engine="primsim", design="DESIGN.md section 5 (C17)",
+   technique="deterministic simulation: generated task-tree programs on the real scope::run! under seeded schedules; event-log oracle",
+   text="Random programs (main/background tasks, tasks spawning tasks, joins, nested scopes, cancel(), errors, panics, caller deadlines) run on the real scope implementation under the gate scheduler. Oracle over start/end/active events vs the scope's return: returns only after all tasks ended; root's value iff nobody failed, else the error of the first failing task; a panic is re-raised after all tasks ended; the context is inactive from the event at which a task failed / the last main task completed / cancel() was called; the program terminates once the caller's deadline passed. A worker process dying (use-after-free after an early return) counts as a violation.",
+   note="Async tasks only; blocking tasks are not exercised in this revision. At await-point granularity a task failure is atomic, so 'first failure' is exact."),
+ "C18": dict(engine="primsim", design="DESIGN.md section 5 (C18)",
+   technique="deterministic simulation: concurrent batch pushes into real address books; reference map model, independent signature re-verification, cross-book convergence",
+   text="2-3 real ValidatorAddrsWatch instances receive the same batches of announcements in different orders from concurrent peer tasks. After every batch the verdict equals the reference model's (all-or-nothing batches, duplicates rejected, outsiders skipped, only strictly newer (version, timestamp) replaces, bad signatures on newer entries reject the batch); at the end every entry is re-verified independently, belongs to the committee, the book equals the model, and books that owe convergence agree.",
+   note="Announcements are generated with few distinct (version, timestamp) pairs so ties and reversals abound."),
+ "C19": dict(engine="primsim", design="DESIGN.md section 5 (C19)",
+   technique="deterministic simulation: real fetch queue with requester and peer-worker tasks, failures, cancellations, growing availability; history oracles + fair-suffix progress",
+   text="History oracles over accept/outcome/request events of the real gossip fetch queue: a block is held by at most one peer, handed only to a peer whose announced range contains it, is the lowest outstanding request at some event inside the accept window, is handed out again after a failure, disappears when its request is cancelled; and once every peer announces everything and always succeeds all outstanding requests complete (lost wake-up detector).",
+   note="One requester per block number at a time (as the block fetcher does); announced ranges only grow."),
  "C16": dict(engine="bftsim", design="DESIGN.md section 5 (C16)",
-   technique="deterministic simulation; Byzantine floods of future-view votes; cache-size bounds checked on every replica snapshot",
-   text="Replica half of C16: up to f weight of validators flood validly signed commit/timeout votes for many distinct future views; after every replica step the vote caches (latest-view maps, partial certificates per view) must stay within bounds that depend on the committee size only.",
+   technique="deterministic simulation; sequential reference model of the prunable input channel under concurrent senders; Byzantine floods of future-view votes with cache-size bounds checked on every replica snapshot",
+   text="Channel half: 2-5 sender tasks and the consumer on the real bft::create_input_channel(); every recv result must equal the reference queue's (one entry per sender and kind; strictly higher view replaces and moves to the back; equal/lower dropped; bad signatures dropped; pop front), which also gives bound, freshest-survives and arrival order. Replica half: up to f weight of validators flood validly signed commit/timeout votes for many distinct future views; after every replica step the vote caches (latest-view maps, partial certificates per view) must stay within bounds that depend on the committee size only.",
    note=BFT_NOTE),
 }
 
@@ -53,6 +77,8 @@ for p in ALL:
         NA[p] = "not yet built in this revision (planned, see DESIGN.md section 5)."
 
 ENGINES = [
+ {"name": "primsim", "path": "sim/src/prim", "serves_properties": [p for p, c in CHECKS.items() if c["engine"] == "primsim"] + ["C16"],
+  "kind_free_text": "deterministic simulation of concurrency primitives and bookkeeping structures: the real Limiter, prunable channel, scopes, EngineManager/BlockStore, PoolWatch, address book and fetch queue driven by generated client tasks under the gate scheduler and a director-controlled clock, against small executable reference models"},
  {"name": "bftsim", "path": "sim/src/bft", "serves_properties": [p for p, c in CHECKS.items() if c["engine"] == "bftsim"],
   "kind_free_text": "deterministic simulation: real bft::Config::run replicas + real EngineManager on a simulated execution layer/disk, simulated bus, per-node manual clocks, seeded gate scheduler over a real tokio current-thread runtime, Byzantine adversary, crash/restart from durable state"},
 ]
